@@ -183,6 +183,18 @@ PECase(c) ==
     <<"SwitchValuesConfigured", c.acc.built = 0 \/ \A j \in DOMAIN c.decoded : c.decoded[j].ok = 1 => c.acc.values[j] = c.decoded[j].sw>>
   >>)
 
+(* ---------------- E05: the hardware view of a merged PE (one-option switches removed) under the software's switch values ---------------- *)
+PEHw(c) ==
+  LET G == c.abstract  H == c.hw  nreal == Len(RealSwitches(G)) IN
+  First(<<
+    <<"NoOneOptionSwitchLeft", \A i \in DOMAIN H.nodes : H.nodes[i].kind = "choose" => Len(H.nodes[i].alts) > 1>>,
+    <<"HardwareHasTheConfiguredSwitches", H.nsw = nreal /\ Len(RealSwitches(H)) = nreal>>,
+    <<"SameDataInputs", H.ndata = G.ndata>>,
+    <<"HardwareComputesKernel", \A j \in DOMAIN c.decoded : (c.decoded[j].ok = 1 /\ Len(c.decoded[j].sw) = nreal /\ H.nsw = nreal) =>
+         \A d \in DataBox(G.ndata) :
+            LET v == EvalPE(H, c.decoded[j].sw, d) IN v # Undef /\ v = EvalKernel(c.kernels[j], d)>>
+  >>)
+
 (* ---------------- C12: constants / globals re-laid-out at compile time ---------------- *)
 RECURSIVE RowMajorIdx(_, _, _)
 RowMajorIdx(shape, idx, d) == IF d > Len(shape) THEN 0 ELSE idx[d] * Prod(shape, d + 1) + RowMajorIdx(shape, idx, d + 1)
@@ -231,6 +243,7 @@ JudgeObj(c) ==
     [] c.kind = "regmap" -> MapCase(c)
     [] c.kind = "dispatchdecl" -> DispatchDecl(c)
     [] c.kind = "pe" -> PECase(c)
+    [] c.kind = "pehw" -> PEHw(c)
     [] c.kind = "relayout" -> Relayout(c)
     [] c.kind = "subviewtype" -> SubviewType(c)
     [] c.kind = "chosenlayout" -> ChosenLayout(c)
